@@ -16,3 +16,4 @@ pub mod targets;
 pub mod manager;
 pub mod mrt_import;
 pub mod ribquery;
+pub mod http;
